@@ -72,7 +72,7 @@ def selections(tier):
 
 def files():
     out = []
-    for stream in ('bbb', 'synenc', 'tears', 'synoff'):
+    for stream in ('bbb', 'synenc', 'tears', 'synoff', 'synmk'):
         st = crawl.Stored.fixture(stream)
         for fname, f in st.files.items():
             out.append((stream, fname))
@@ -90,6 +90,32 @@ def stored_init_boxes(f):
             break
         out.append(b)
     return out
+
+
+_track_kids: dict = {}
+
+
+def track_kids(stream, fname):
+    """Key ids of the track: tenc default KID + every KID a version 1 pssh box inside a movie fragment names."""
+    key = (stream, fname)
+    if key not in _track_kids:
+        f = crawl.Stored.fixture(stream).files[fname]
+        kids = []
+        if f['init'].kid:
+            kids.append(f['init'].kid)
+        for b in bmff.parse(f['data']).children:
+            if b.type != b'moof':
+                continue
+            for c in b.children:
+                if c.type == b'pssh':
+                    try:
+                        for k in bmff.pssh(c)['kids']:
+                            if k not in kids:
+                                kids.append(k)
+                    except bmff.Malformed:
+                        pass
+        _track_kids[key] = kids
+    return _track_kids[key]
 
 
 def parse_pro(data: bytes):
@@ -184,7 +210,14 @@ def check_init(acc, rec, stream, fname, mode, sel, la_url, body):
             bad('pssh-malformed', str(e))
             continue
         got.append(p['system_id'])
+        kids = track_kids(stream, fname)
+        shape = 'multi-key' if len(kids) > 1 else 'single-key'
         if p['system_id'] == PLAYREADY:
+            # "bearing ... the key ids ... for the track's KID": a key id list (version 1 box) names exactly the
+            # track's key ids, as the bytes tenc carries; a version 0 box has no list
+            if p['version'] >= 1 and sorted(p['kids']) != sorted(kids):
+                bad(f'playready-pssh-kids|{shape}', f'PlayReady pssh v{p["version"]} lists {[k.hex() for k in p["kids"]]}, the track\'s '
+                    f'key ids are {[k.hex() for k in kids]}')
             try:
                 recs = parse_pro(p['data'])
                 hdrs = [v for t, v in recs if t == 1]
@@ -196,11 +229,17 @@ def check_init(acc, rec, stream, fname, mode, sel, la_url, body):
                     if kid_le not in wrm_kids(xml):
                         bad('playready-kid', f'WRMHEADER KIDs {[k.hex() for k in wrm_kids(xml)]} do not name the '
                             f'track KID {init.kid.hex()} in GUID order')
+                    elif len(kids) > 1 and sorted(wrm_kids(xml)) != sorted(uuid.UUID(bytes=k).bytes_le for k in kids):
+                        bad('playready-kid|multi-key', f'WRMHEADER KIDs {[k.hex() for k in wrm_kids(xml)]} are not the GUID '
+                            f'forms of the track\'s key ids {[k.hex() for k in kids]}')
                     if la_url is not None and la_url.replace('&', '&amp;') not in xml and la_url not in xml:
                         bad('playready-la-url', f'LA_URL override {la_url!r} not in WRMHEADER')
             except Exception as e:
                 bad('pro-unparsable', f'{type(e).__name__}: {e}')
         elif p['system_id'] == CLEARKEY:
+            if p['version'] == 1 and init.kid in p['kids'] and sorted(p['kids']) != sorted(kids):
+                bad(f'clearkey-kids|{shape}', f'ClearKey pssh lists {[k.hex() for k in p["kids"]]}, the track\'s key ids are '
+                    f'{[k.hex() for k in kids]}')
             if p['version'] != 1 or init.kid not in p['kids']:
                 bad('clearkey-kids', f'ClearKey pssh v{p["version"]} lists {[k.hex() for k in p["kids"]]}, track KID '
                     f'{init.kid.hex() if init.kid else None}')
@@ -232,7 +271,7 @@ def execute(item):
             if p.stream.directory == stream:
                 routes.append(('mps', f'/mps/{{mode}}/testmps/{p.pk}/{fname}/init.{ext}'))
     versions = [None] if tier == 'quick' else [None, '1.0', '2.0', '3.0', '4.0']
-    if tier == 'quick' and fname in ('bbb_v7_enc', 'synenc_a1_enc'):
+    if tier == 'quick' and fname in ('bbb_v7_enc', 'synenc_a1_enc', 'synmk_v1_enc'):
         versions = [None, '1.0', '4.0']       # 1.0 (PIFF) is the version that changes which hooks are installed
     la_urls = [None] if tier == 'quick' else [None, 'https://lic.example/pr?a=1&b=2']
     for rname, tmpl in routes:
@@ -277,7 +316,7 @@ def run(ctx):
     for stream, fname in files():
         enc = crawl.Stored.fixture(stream).files[fname]['init'].encrypted
         use = sels if enc else [s for i, s in enumerate(sels) if i < 12 or i % 37 == 0]
-        if ctx.quick and enc and fname not in ('bbb_v7_enc', 'synenc_a1_enc'):
+        if ctx.quick and enc and fname not in ('bbb_v7_enc', 'synenc_a1_enc', 'synmk_v1_enc'):
             # quick: the full selection space on one video and one audio file, a rotated 1/6 of it elsewhere
             rot = core.digest(fname)[0] % 6
             use = [s for i, s in enumerate(sels) if i < 12 or i % 6 == rot]
@@ -285,7 +324,7 @@ def run(ctx):
             items.append((stream, fname, ctx.tier, ch))
     ctx.merge_all(ctx.pmap(execute, items))
     ctx.extra.update(drm_selections=len(sels), files=len(files()),
-                     levels_completed=('every expressible drm selection x {bbb_v7_enc, synenc_a1_enc} (1/6 of them, '
+                     levels_completed=('every expressible drm selection x {bbb_v7_enc, synenc_a1_enc, synmk_v1_enc (two key ids)} (1/6 of them, '
                                        'rotated per file, on the other encrypted files) x {live,vod} x {dash, mps}'
                                        if ctx.quick else
                                        'every expressible drm selection x every encrypted file x {live,vod} x '
